@@ -22,7 +22,7 @@ import numpy as np
 from . import core, scen
 from .core import Violation
 
-WATCHDOG_S = int(os.environ.get('NVMC_WATCHDOG', '600'))
+WATCHDOG_S = int(os.environ.get('NVMC_WATCHDOG', '300'))
 
 
 class Hang(Exception):
@@ -81,7 +81,7 @@ def install_tally():
 
 class State:
     __slots__ = ('pick', 'file', 'evald', 'resumes', 'toggles', 'terminal', 'path', 'skey', 'fkey',
-                 'ekey', 'key', 'depth', 'target', 'toggled', 'nsched', 'exp_points', 'thist', 'thist_ck', 'explored', 'n_like', 'n_eff')
+                 'ekey', 'key', 'depth', 'target', 'toggled', 'nsched', 'exp_points', 'thist', 'thist_ck', 'explored', 'n_like', 'n_eff', 'dexp')
 
     def sampler(self):
         return pickle.loads(zlib.decompress(self.pick))
@@ -176,6 +176,9 @@ class Engine:
         st.target = target if target is not None else (parent.target if parent else None)
         st.path = (parent.path if parent else ()) + ((action,) if action else ())
         st.depth = len(st.path)
+        # depth at which this path first saw exploration finished
+        st.dexp = parent.dexp if (parent is not None and parent.dexp is not None) else (
+            st.depth if st.explored else None)
         st.key = '|'.join([st.skey, st.fkey, st.ekey, str(int(terminal)), repr(st.target),
                            repr(st.thist)])
         return st
